@@ -4,6 +4,9 @@
 // real clock.  The "last datapoint at T" of C09 is the receiver's arrival stamp; this stream
 // is the only one in which the implementation, not the harness, supplies it.
 //
+// A share of the cases delivers the datapoints by POST /v2/raw to the server's own HTTP ingestion
+// endpoint (pkg/web translateFromProtobufV2 stamps the series) instead of UDP.
+//
 // Script: send datapoint 1 of a series, wait until a flush reports it, stay silent for longer
 // than the type's expiry interval, send datapoint 2 (send instant S taken BEFORE the write),
 // watch the flushes.  No model is involved; the monitor uses only sound bounds:
@@ -18,16 +21,21 @@
 package main
 
 import (
+	"bytes"
 	"context"
 	"fmt"
+	"io"
 	"math"
 	"net"
+	"net/http"
 	"sync"
 	"time"
 
 	"github.com/spf13/viper"
+	"google.golang.org/protobuf/proto"
 
 	"github.com/atlassian/gostatsd"
+	"github.com/atlassian/gostatsd/pb"
 	"github.com/atlassian/gostatsd/pkg/statsd"
 
 	"verifharness/hlib"
@@ -39,6 +47,9 @@ type e2eIn struct {
 	ExpiryMs int `json:"expiry_ms"` // expiry interval of the type under test
 	QuietMs  int `json:"quiet_ms"`  // silence between the two datapoints (> expiry)
 	OtherMs  int `json:"other_ms"`  // expiry interval of the three other types
+	// "udp" (default): statsd lines on the loopback socket; "http": pb.RawMessageV2 posted to the
+	// server's own /v2/raw ingestion endpoint (the receiver stamps the series there)
+	Via string `json:"via,omitempty"`
 }
 
 const e2eMargin = 20 * time.Millisecond
@@ -109,6 +120,38 @@ func (b *e2eBackend) snapshot() []e2eFlush {
 	return append([]e2eFlush(nil), b.fl...)
 }
 
+// the same two datapoints as a /v2/raw body
+func e2eRaw(ty gostatsd.MetricType, second bool) ([]byte, error) {
+	m := &pb.RawMessageV2{}
+	switch ty {
+	case gostatsd.COUNTER:
+		v := int64(3)
+		if second {
+			v = 5
+		}
+		m.Counters = map[string]*pb.CounterTagV2{"x": {TagMap: map[string]*pb.RawCounterV2{"": {Value: v}}}}
+	case gostatsd.GAUGE:
+		v := 2.0
+		if second {
+			v = 7
+		}
+		m.Gauges = map[string]*pb.GaugeTagV2{"x": {TagMap: map[string]*pb.RawGaugeV2{"": {Value: v}}}}
+	case gostatsd.SET:
+		v := "m1"
+		if second {
+			v = "m2"
+		}
+		m.Sets = map[string]*pb.SetTagV2{"x": {TagMap: map[string]*pb.RawSetV2{"": {Values: []string{v}}}}}
+	case gostatsd.TIMER:
+		v := 4.0
+		if second {
+			v = 9
+		}
+		m.Timers = map[string]*pb.TimerTagV2{"x": {TagMap: map[string]*pb.RawTimerV2{"": {Values: []float64{v}, SampleCount: 1}}}}
+	}
+	return proto.Marshal(m)
+}
+
 var e2eLines = map[gostatsd.MetricType][2]string{
 	gostatsd.COUNTER: {"x:3|c\n", "x:5|c\n"},
 	gostatsd.GAUGE:   {"x:2|g\n", "x:7|g\n"},
@@ -140,6 +183,22 @@ func runE2E(in input) hlib.Case {
 		return c
 	}
 	backend := &e2eBackend{ty: ty}
+	v := viper.New()
+	viaHTTP, httpAddr := e.Via == "http", ""
+	if viaHTTP {
+		c.Class = "e2e:http"
+		probe, err := net.Listen("tcp4", "127.0.0.1:0")
+		if err != nil {
+			conn.Close()
+			c.Class = "e2e:no-loopback"
+			return c
+		}
+		httpAddr = probe.Addr().String()
+		probe.Close()
+		v.Set("http-servers", []string{"ing"})
+		v.Set("http.ing.address", httpAddr)
+		v.Set("http.ing.enable-ingestion", true)
+	}
 	srv := statsd.Server{
 		Backends:              []gostatsd.Backend{backend},
 		ExpiryIntervalCounter: exp(gostatsd.COUNTER),
@@ -158,7 +217,7 @@ func runE2E(in input) hlib.Case {
 		IgnoreHost:            true,
 		StatserType:           gostatsd.StatserNull,
 		ServerMode:            "standalone",
-		Viper:                 viper.New(),
+		Viper:                 v,
 	}
 	ctx, cancel := context.WithCancel(context.Background())
 	done := make(chan error, 1)
@@ -178,9 +237,55 @@ func runE2E(in input) hlib.Case {
 		return c
 	}
 	defer sender.Close()
+	client := &http.Client{Transport: &http.Transport{DisableKeepAlives: true}, Timeout: 3 * time.Second}
+	// deliver one of the two datapoints; false = the server did not accept it
+	send := func(second bool) bool {
+		if !viaHTTP {
+			line := lines[0]
+			if second {
+				line = lines[1]
+			}
+			_, err := sender.Write([]byte(line))
+			return err == nil
+		}
+		body, err := e2eRaw(ty, second)
+		if err != nil {
+			return false
+		}
+		resp, err := client.Post("http://"+httpAddr+"/v2/raw", "application/x-protobuf", bytes.NewReader(body))
+		if err != nil {
+			return false
+		}
+		io.Copy(io.Discard, resp.Body)
+		resp.Body.Close()
+		return resp.StatusCode == http.StatusAccepted
+	}
+	if viaHTTP {
+		up := false
+		for i := 0; i < 600 && !up; i++ {
+			if resp, err := client.Get("http://" + httpAddr + "/healthcheck"); err == nil {
+				io.Copy(io.Discard, resp.Body)
+				resp.Body.Close()
+				up = true
+			} else {
+				time.Sleep(5 * time.Millisecond)
+			}
+		}
+		if !up {
+			stop()
+			c.Class = "e2e:inconclusive"
+			c.Obs = "the HTTP server did not come up at " + httpAddr
+			return c
+		}
+	}
 
 	// datapoint 1, and wait until a flush has reported it
-	sender.Write([]byte(lines[0]))
+	if !send(false) {
+		stop()
+		c.Class = "e2e:inconclusive"
+		c.Obs = "datapoint 1 was not accepted"
+		return c
+	}
 	seen1 := false
 	for deadline := time.Now().Add(3 * time.Second); !seen1 && time.Now().Before(deadline); time.Sleep(5 * time.Millisecond) {
 		for _, f := range backend.snapshot() {
@@ -194,8 +299,13 @@ func runE2E(in input) hlib.Case {
 		return c
 	}
 	time.Sleep(quiet)
-	sendAt := time.Now() // S: taken before the write, so S <= arrival stamp
-	sender.Write([]byte(lines[1]))
+	sendAt := time.Now() // S: taken before the write / POST, so S <= arrival stamp
+	if !send(true) {
+		stop()
+		c.Class = "e2e:inconclusive"
+		c.Obs = "datapoint 2 was not accepted"
+		return c
+	}
 	time.Sleep(expiry + 4*flush + 60*time.Millisecond)
 	stop()
 
@@ -219,8 +329,8 @@ func runE2E(in input) hlib.Case {
 		if age <= expiry-e2eMargin {
 			persistChecked++
 			if !fl[k].present {
-				c.Monitors = append(c.Monitors, fmt.Sprintf("series dropped early: flush %.2f ms after its last datapoint was SENT (expiry %v, quiet socket for %v before it) does not report it; the data flush was at %.2f ms",
-					ms(age), expiry, quiet, ms(fl[D].at.Sub(sendAt))))
+				c.Monitors = append(c.Monitors, fmt.Sprintf("series dropped early: flush %.2f ms after its last datapoint was SENT by %s (expiry %v, no traffic for %v before it) does not report it; the data flush was at %.2f ms",
+					ms(age), map[bool]string{false: "UDP", true: "POST /v2/raw"}[viaHTTP], expiry, quiet, ms(fl[D].at.Sub(sendAt))))
 			} else if !fl[k].idle {
 				c.Monitors = append(c.Monitors, fmt.Sprintf("persisted series not idle %.2f ms after its last datapoint: %s", ms(age), fl[k].desc))
 			}
@@ -236,7 +346,7 @@ func runE2E(in input) hlib.Case {
 			}
 		}
 	}
-	if persistChecked == 0 {
+	if persistChecked == 0 && len(c.Monitors) == 0 {
 		c.Class = "e2e:inconclusive"
 	}
 	c.Nontrivial = persistChecked >= 2
@@ -247,15 +357,22 @@ func runE2E(in input) hlib.Case {
 	return c
 }
 
-func genE2E(r *hlib.Rand) input {
+// case i of a run: types cycle, the first half of every 8 arrives by POST /v2/raw, the second by UDP,
+// so every quick run has each (type, transport) pair once
+func genE2E(r *hlib.Rand, i int) input {
 	flush := r.Range(30, 60)
 	expiry := flush * 5 // 150..300 ms: several flushes inside the persistence window
+	via := "udp"
+	if i%8 < 4 {
+		via = "http"
+	}
 	return input{Kind: "e2e", Class: "e2e", Ops: []opIn{}, E2E: &e2eIn{
-		Type:     r.Range(int(gostatsd.COUNTER), int(gostatsd.SET)),
+		Type:     int(gostatsd.COUNTER) + i%4,
 		FlushMs:  flush,
 		ExpiryMs: expiry,
 		QuietMs:  expiry + r.Range(80, 160),
 		OtherMs:  hlib.Pick(r, []int{0, 10000, expiry}),
+		Via:      via,
 	}}
 }
 
